@@ -1,6 +1,7 @@
 package props
 
 import (
+	"context"
 	"encoding/json"
 	"fmt"
 	"os"
@@ -8,6 +9,7 @@ import (
 	"sort"
 	"strings"
 	"sync"
+	"time"
 
 	"github.com/ChrisTrenkamp/xsel"
 	"github.com/ChrisTrenkamp/xsel/node"
@@ -245,6 +247,8 @@ func (w *c14World) exec(c c14Call) (out string) {
 			xsel.WithFunction("y", w.fnMap[xsel.XmlName{Local: "y"}]),
 			xsel.WithFunction("tf", func(xsel.Context, ...xsel.Result) (xsel.Result, error) { return xsel.Number(k * 100), nil })}
 	}
+	slot := run.Enter("Exec (C14 scenario)", c.Expr)
+	defer run.Leave(slot)
 	r, err := xsel.Exec(w.ctx(c.Ctx), w.exprs[c.Expr], settings...)
 	return w.outcome(r, err)
 }
@@ -373,6 +377,11 @@ func c14RunOnce(w *c14World, sc c14Scenario, serial [][]string, prefix []int, fu
 	if s.Deadlock {
 		return s.Points, "deadlock", ""
 	}
+	if s.Truncated {
+		// executions of these scenarios need a few dozen scheduling points; one that
+		// is still going after 100000 has a call that does not return under this schedule
+		return s.Points[:min(len(s.Points), 600)], fmt.Sprintf("the calls had not returned after %d scheduling points under this schedule (each returns within a few dozen when run alone): a call does not terminate when interleaved with the others", s.MaxPoints), ""
+	}
 	if verdict != "" {
 		return s.Points, verdict, ""
 	}
@@ -404,13 +413,59 @@ func c14Serial(sc c14Scenario) [][]string {
 	return out
 }
 
+// c14Library explores every library scenario in a process of its own: state
+// shared between calls inside the library (a package-level buffer, a cache)
+// would otherwise be disturbed by the threads of the other scenarios, which no
+// recorded schedule accounts for - verdicts would not reproduce.
 func c14Library(c *run.Check) {
+	var mu sync.Mutex
+	run.ParallelW(len(c14Scenarios), func(_, i int) {
+		out := ""
+		var ex run.Exported
+		ok := false
+		for attempt := 0; attempt < 3 && !ok; attempt++ {
+			o, _ := exec.Command(os.Args[0], "c14-lib-one", fmt.Sprint(i), c.Tier).CombinedOutput()
+			out = string(o)
+			if k := strings.LastIndex(out, "EXPORT "); k >= 0 && json.Unmarshal([]byte(strings.TrimSpace(out[k+7:])), &ex) == nil {
+				ok = true
+				if k > 0 {
+					fmt.Print(out[:k]) // notes the scenario process printed
+				}
+				break
+			}
+			if strings.Contains(out, "goroutine ") || strings.Contains(out, "HANG ") || strings.Contains(out, "MEMORY ") {
+				break // the child ran and died
+			}
+			time.Sleep(time.Duration(attempt+1) * 300 * time.Millisecond)
+		}
+		mu.Lock()
+		defer mu.Unlock()
+		if ok {
+			c.Merge(ex)
+			return
+		}
+		if len(out) > 1500 {
+			out = out[:1500]
+		}
+		sc := c14Scenarios[i]
+		if (strings.Contains(out, "goroutine ") && strings.Contains(out, "ChrisTrenkamp/xsel")) || strings.Contains(out, "HANG ") || strings.Contains(out, "MEMORY ") {
+			c.Violation(c14Replay{Scenario: sc, Detail: "scenario process died"}, fmt.Sprintf("scenario %q: the process exploring it died inside the library or was stopped by the watchdog: %s", sc.Name, out))
+			return
+		}
+		c.Set(fmt.Sprintf("scenario_%d_exploration_problem", i), "scenario process gave no result: "+out)
+		c.Exhaustive = false
+	})
+}
+
+// c14LibraryRun is the body of one scenario process (idx: scenario numbers).
+func c14LibraryRun(c *run.Check, idx []int) {
 	bound := 2
 	if !c.Quick() {
 		bound = 3
 	}
 	var mu sync.Mutex
-	run.ParallelW(len(c14Scenarios), func(w, i int) {
+	run.ParallelW(len(idx), func(w, k int) {
+		i := idx[k]
 		sc := c14Scenarios[i]
 		serial := c14Serial(sc)
 		// replay determinism: the same schedule twice gives the same trace
@@ -680,9 +735,16 @@ func C14(c *run.Check) {
 	// auxiliary: free-running -race pass of the same scenario bodies
 	if c.Violations() == 0 {
 		if rb := os.Getenv("XV_RACE_BIN"); rb != "" {
-			out, err := exec.Command(rb, "c14-race").CombinedOutput()
+			// the pass takes well under a minute; twenty minutes without an end means the
+			// free-running calls do not return (a loop on state another goroutine changed)
+			rctx, cancel := context.WithTimeout(context.Background(), 20*time.Minute)
+			out, err := exec.CommandContext(rctx, rb, "c14-race").CombinedOutput()
+			hung := rctx.Err() != nil
+			cancel()
 			c.Evaluations.Add(int64(30 * len(c14Scenarios)))
-			if err != nil || strings.Contains(string(out), "DATA RACE") {
+			if hung {
+				c.Violation(map[string]string{"kind": "race-pass-hang"}, "auxiliary free-running pass: the concurrent calls had not returned after 20 minutes (the same calls return at once when run one after the other)")
+			} else if err != nil || strings.Contains(string(out), "DATA RACE") {
 				msg := string(out)
 				if i := strings.Index(msg, "WARNING: DATA RACE"); i >= 0 {
 					msg = msg[i:]
@@ -706,6 +768,16 @@ func C14(c *run.Check) {
 func init() {
 	Registry["C14"] = Prop{"model_checking", C14}
 	Sub["c14-race"] = C14Race
+	// `xv c14-lib-one <scenario> <tier>`: one library scenario, alone in its process
+	Sub["c14-lib-one"] = func(args []string) int {
+		var i int
+		fmt.Sscan(args[0], &i)
+		c := run.New("C14", args[1], "model_checking")
+		c14LibraryRun(c, []int{i})
+		j, _ := json.Marshal(c.Export())
+		fmt.Println("EXPORT " + string(j))
+		return 0
+	}
 	replayers["C14"] = func(raw json.RawMessage) string {
 		var probe struct {
 			Kind string `json:"kind"`
